@@ -1,7 +1,7 @@
 import GV.Lib.Line
 import GV.Model.Validity
 /-
-  op:  vi <era> <slot> <start|-> <ttl|->
+  op:  vi <era> <slot> <start|-> <ttl|-> [<valid> <build c|s>]
   out: ok=<0|1>
 -/
 namespace GV.Drv.C26
@@ -12,9 +12,7 @@ def parseOpt (s : String) : Option (Option Nat) :=
 
 def u64max : Nat := 18446744073709551615
 
-def parse (toks : List String) : Option Tx :=
-  match toks with
-  | ["vi", era, slot, st, tt] => do
+def parse5 (era slot st tt : String) (valid : Bool) (structBuilt : Bool) : Option Tx := do
     let sh ← (match era with
       | "shelley" => some true
       | "allegra" => some false | "mary" => some false | "alonzo" => some false
@@ -25,7 +23,21 @@ def parse (toks : List String) : Option Tx :=
     let tt ← parseOpt tt
     if sh && st.isSome then none
     else if slot > u64max || st.getD 0 > u64max || tt.getD 0 > u64max then none
-    else pure { shelley := sh, slot := slot, start := st, ttl := tt }
+    -- a struct-built transaction cannot write a bound 0 apart from "absent"
+    else if structBuilt && (st == some 0 || tt == some 0) then none
+    else if !valid && !(["alonzo", "babbage", "conway", "dijkstra"].contains era) then none
+    else pure { shelley := sh, slot := slot, start := st, ttl := tt, valid := valid }
+
+def parse (toks : List String) : Option Tx :=
+  match toks with
+  | ["vi", era, slot, st, tt] => parse5 era slot st tt true false
+  | ["vi", era, slot, st, tt, v, b] => do
+    let v ← parseBool? v
+    if b = "c" then
+      -- the Dijkstra decoder refuses is_valid = false: not an input of this op
+      if era = "dijkstra" && !v then none else parse5 era slot st tt v false
+    else if b = "s" then parse5 era slot st tt v true
+    else none
   | _ => none
 
 def handle (line : String) : Out :=
